@@ -285,14 +285,12 @@ func rangeVarRenaming(t target, fd *ast.FuncDecl, vars map[string]bool) map[stri
 	return out
 }
 
-// canonClone: a private copy of fd with the variables renamed (nil when there is nothing to rename)
+// canonClone: a private copy of fd with the variables renamed and the loops / switches in normal form (nil when that
+// changes nothing)
 func canonClone(p *pkgInfo, t target, fd *ast.FuncDecl) *ast.FuncDecl {
 	ren := canonRenaming(p, t, fd)
 	if os.Getenv("LEAF_DEBUG") != "" {
 		fmt.Fprintf(os.Stderr, "leaf: %s canonical renaming %v\n", t.Name, ren)
-	}
-	if len(ren) == 0 {
-		return nil
 	}
 	expandSeq++
 	f, err := parser.ParseFile(p.fset, "canon_"+t.Name+"_"+itoa(expandSeq)+".go", "package p\n"+src(p.fset, fd)+"\n", 0)
@@ -315,6 +313,9 @@ func canonClone(p *pkgInfo, t target, fd *ast.FuncDecl) *ast.FuncDecl {
 	renameFields(c.Type.Params)
 	renameFields(c.Type.Results)
 	rewriteIdents(c.Body, nil, ren)
+	if norm := normalise(c.Body, p.fset); !norm && len(ren) == 0 {
+		return nil // nothing to try
+	}
 	// definitions: `a := ...`, `var a T`, range variables are identifiers on the left: rewriteIdents renames
 	// them through its expression walk; function literals' parameters are left alone
 	return c
@@ -357,4 +358,194 @@ func extraKeyTexts(t target) []string {
 		keys = append(keys, strings.TrimSuffix(k, "("))
 	}
 	return keys
+}
+
+// ---- normal forms applied to the private copy of a retried target ----
+//
+//   for i := 0; i < len(xs); i++ { x := xs[i]; ... }   ==>   for _, x := range xs { ... }     (i not used otherwise)
+//   for i := range xs { x := xs[i]; ... }               ==>   for _, x := range xs { ... }     (i not used otherwise)
+//   switch init; tag { ... }                            ==>   { init; switch tag { ... } }
+
+func usesIdent(n ast.Node, name string) bool {
+	found := false
+	ast.Inspect(n, func(m ast.Node) bool {
+		if id, ok := m.(*ast.Ident); ok && id.Name == name {
+			found = true
+		}
+		return !found
+	})
+	return found
+}
+
+// elementDef: `x := xs[i]` as first statement of a loop body
+func elementDef(body *ast.BlockStmt, xs ast.Expr, i string, fset *token.FileSet) (*ast.Ident, bool) {
+	if len(body.List) == 0 {
+		return nil, false
+	}
+	as, ok := body.List[0].(*ast.AssignStmt)
+	if !ok || as.Tok != token.DEFINE || len(as.Lhs) != 1 || len(as.Rhs) != 1 {
+		return nil, false
+	}
+	id, ok := as.Lhs[0].(*ast.Ident)
+	ix, ok2 := as.Rhs[0].(*ast.IndexExpr)
+	if !ok || !ok2 {
+		return nil, false
+	}
+	ii, ok := ix.Index.(*ast.Ident)
+	if !ok || ii.Name != i || src(fset, ix.X) != src(fset, xs) {
+		return nil, false
+	}
+	for _, s := range body.List[1:] {
+		if usesIdent(s, i) {
+			return nil, false
+		}
+	}
+	return id, true
+}
+
+func indexLoopAsRange(s ast.Stmt, fset *token.FileSet) (ast.Stmt, bool) {
+	switch s := s.(type) {
+	case *ast.ForStmt:
+		init, ok := s.Init.(*ast.AssignStmt)
+		if !ok || init.Tok != token.DEFINE || len(init.Lhs) != 1 || len(init.Rhs) != 1 {
+			return nil, false
+		}
+		i, ok := init.Lhs[0].(*ast.Ident)
+		zero, ok2 := init.Rhs[0].(*ast.BasicLit)
+		if !ok || !ok2 || zero.Value != "0" {
+			return nil, false
+		}
+		cond, ok := s.Cond.(*ast.BinaryExpr)
+		if !ok || cond.Op != token.LSS {
+			return nil, false
+		}
+		ci, ok := cond.X.(*ast.Ident)
+		ln, ok2 := cond.Y.(*ast.CallExpr)
+		if !ok || !ok2 || ci.Name != i.Name || len(ln.Args) != 1 {
+			return nil, false
+		}
+		if f, ok := ln.Fun.(*ast.Ident); !ok || f.Name != "len" {
+			return nil, false
+		}
+		post, ok := s.Post.(*ast.IncDecStmt)
+		if !ok || post.Tok != token.INC {
+			return nil, false
+		}
+		if pi, ok := post.X.(*ast.Ident); !ok || pi.Name != i.Name {
+			return nil, false
+		}
+		x, ok := elementDef(s.Body, ln.Args[0], i.Name, fset)
+		if !ok {
+			return nil, false
+		}
+		return &ast.RangeStmt{For: s.For, Key: ast.NewIdent("_"), Value: x, Tok: token.DEFINE, X: ln.Args[0],
+			Body: &ast.BlockStmt{Lbrace: s.Body.Lbrace, List: s.Body.List[1:], Rbrace: s.Body.Rbrace}}, true
+	case *ast.RangeStmt:
+		i, ok := s.Key.(*ast.Ident)
+		if !ok || s.Value != nil || s.Tok != token.DEFINE || i.Name == "_" {
+			return nil, false
+		}
+		x, ok := elementDef(s.Body, s.X, i.Name, fset)
+		if !ok {
+			return nil, false
+		}
+		return &ast.RangeStmt{For: s.For, Key: ast.NewIdent("_"), Value: x, Tok: token.DEFINE, X: s.X,
+			Body: &ast.BlockStmt{Lbrace: s.Body.Lbrace, List: s.Body.List[1:], Rbrace: s.Body.Rbrace}}, true
+	}
+	return nil, false
+}
+
+// normalise rewrites the statement lists under n in place; it reports whether anything changed
+func normalise(n ast.Node, fset *token.FileSet) bool {
+	changed := false
+	fix := func(list []ast.Stmt) {
+		for i, s := range list {
+			if r, ok := indexLoopAsRange(s, fset); ok {
+				list[i], changed = r, true
+			}
+			if sw, ok := list[i].(*ast.SwitchStmt); ok && sw.Init != nil {
+				init := sw.Init
+				sw.Init = nil
+				list[i], changed = &ast.BlockStmt{List: []ast.Stmt{init, sw}}, true
+			}
+		}
+	}
+	ast.Inspect(n, func(m ast.Node) bool {
+		switch m := m.(type) {
+		case *ast.BlockStmt:
+			fix(m.List)
+		case *ast.CaseClause:
+			fix(m.Body)
+		case *ast.CommClause:
+			fix(m.Body)
+		}
+		return true
+	})
+	return changed
+}
+
+// ---- boolean hints modulo trivial rewritings ----
+//
+// A comparison that has no hint of its own but is an evident variant of a hinted boolean is the (negated)
+// parameter of that hint:  a != b ~ !(a == b),  b == a ~ a == b,  s == "" ~ len(s) == 0,  s != "" ~
+// len(s) != 0 ~ len(s) > 0.  Tried only where the comparison would otherwise be looked at operand by operand
+// (which for strings / pointers fails), after the exact lookup.
+func (x *tr) hintVariant(e *ast.BinaryExpr) (val, bool) {
+	if !round3c || len(x.t.Hints) == 0 {
+		return val{}, false
+	}
+	type cand struct {
+		text string
+		neg  bool
+	}
+	var cs []cand
+	pr := func(a ast.Expr, op token.Token, b ast.Expr) string {
+		return src(x.p.fset, &ast.BinaryExpr{X: a, Op: op, Y: b})
+	}
+	isEmptyStr := func(a ast.Expr) bool {
+		l, ok := a.(*ast.BasicLit)
+		return ok && l.Kind == token.STRING && l.Value == `""`
+	}
+	lenOf := func(a ast.Expr) (ast.Expr, bool) {
+		c, ok := a.(*ast.CallExpr)
+		if ok && len(c.Args) == 1 {
+			if f, ok := c.Fun.(*ast.Ident); ok && f.Name == "len" {
+				return c.Args[0], true
+			}
+		}
+		return nil, false
+	}
+	isZero := func(a ast.Expr) bool { l, ok := a.(*ast.BasicLit); return ok && l.Kind == token.INT && l.Value == "0" }
+	zero, empty := &ast.BasicLit{Kind: token.INT, Value: "0"}, &ast.BasicLit{Kind: token.STRING, Value: `""`}
+	mkLen := func(a ast.Expr) ast.Expr { return &ast.CallExpr{Fun: ast.NewIdent("len"), Args: []ast.Expr{a}} }
+	a, b := e.X, e.Y
+	switch e.Op {
+	case token.EQL, token.NEQ:
+		neg := e.Op == token.NEQ
+		cs = append(cs, cand{pr(a, token.EQL, b), neg}, cand{pr(b, token.EQL, a), neg}, cand{pr(a, token.NEQ, b), !neg}, cand{pr(b, token.NEQ, a), !neg})
+		if isEmptyStr(b) {
+			cs = append(cs, cand{pr(mkLen(a), token.EQL, zero), neg}, cand{pr(mkLen(a), token.NEQ, zero), !neg}, cand{pr(mkLen(a), token.GTR, zero), !neg})
+		}
+		if s, ok := lenOf(a); ok && isZero(b) {
+			cs = append(cs, cand{pr(s, token.EQL, empty), neg}, cand{pr(s, token.NEQ, empty), !neg}, cand{pr(a, token.GTR, b), !neg})
+		}
+	case token.GTR:
+		if s, ok := lenOf(a); ok && isZero(b) {
+			cs = append(cs, cand{pr(a, token.EQL, b), true}, cand{pr(a, token.NEQ, b), false}, cand{pr(s, token.EQL, empty), true}, cand{pr(s, token.NEQ, empty), false})
+		}
+	}
+	self := src(x.p.fset, e)
+	for _, c := range cs {
+		if c.text == self {
+			continue
+		}
+		if h, ok := x.t.Hints[c.text]; ok && h.Typ == "bool" {
+			v := x.hintParam(c.text, h)
+			if c.neg {
+				return val{coq: "(negb " + v.coq + ")", typ: "bool"}, true
+			}
+			return v, true
+		}
+	}
+	return val{}, false
 }
